@@ -377,9 +377,11 @@ where
     if airs.len() != instances.len()
         || airs.len() != public_values.len()
         || airs.len() != proof_targets.degree_bits.len()
+        || airs.len() != lookup_terminals.len()
     {
         return Err(VerificationError::InvalidProofShape(
-            "Mismatch between number of AIRs, instances, public values, or degree bits".to_string(),
+            "Mismatch between number of AIRs, instances, public values, degree bits, or lookup terminals"
+                .to_string(),
         ));
     }
 
